@@ -186,6 +186,12 @@ def finish(pid, tier, seed, t0, proof, run, rule, trusted_base, assumptions, ext
     # (the model follows the code as it is); every divergence counts.
     lines = []
     rdir = os.path.join(VERIF, "replays", pid)
+    if os.path.isdir(rdir):          # replays of earlier runs are stale: this run rewrites what it reports
+        for old in glob.glob(os.path.join(rdir, "*_s*.json")):
+            try:
+                os.remove(old)
+            except OSError:
+                pass
     nviol = 0
     if new_mon or cor or proof_failed:
         os.makedirs(rdir, exist_ok=True)
